@@ -18,6 +18,10 @@ def operand? (w : String) : Option (Option Bytes) :=
 
 def bytes? (w : String) : Option Bytes := Proto.unhex? w
 
+/-- a file-name word: `U` = the call gave no location; `unknown` is what stands for it -/
+def fileWord? (unknown : Bytes) (w : String) : Option Bytes :=
+  if w = "U" then some unknown else Proto.unhex? w
+
 def fnv (bs : Bytes) : Nat :=
   (bs.foldl (fun (h : UInt32) b => (h ^^^ b.toUInt32) * 16777619) (2166136261 : UInt32)).toNat
 
@@ -78,6 +82,11 @@ def envDbl (obs : List (List String)) : Option (Bytes × Bytes × Bytes × Bool)
       | _, _, _ => none
     | _ => none
 
+def envTypeName (obs : List (List String)) : Option Bytes :=
+  obs.findSome? fun l => match l with
+    | ["typename", t] => bytes? t
+    | _ => none
+
 def modelFailure (w : List String) (obs : List (List String)) : List String :=
   match w with
   | ["equals", e, a, t] =>
@@ -110,6 +119,16 @@ def modelFailure (w : List String) (obs : List (List String)) : List String :=
     match bytes? m with
     | some m => msgLines (.ok (failFailure m))
     | none => ["bad-op"]
+  | ["base"] => msgLines (.ok baseFailureNoMessage)
+  | ["basemsg", m] =>
+    match bytes? m with
+    | some m => msgLines (.ok (baseFailure m)) ++ msgLines (.ok (baseFailure m))
+    | none => ["bad-op"]
+  | ["excunknown"] => msgLines (.ok unexpectedExceptionUnknown)
+  | ["exc", _, what] =>
+    match envTypeName obs, bytes? what with
+    | some tn, some what => s!"typename {Proto.hex tn}" :: msgLines (.ok (unexpectedException tn what))
+    | _, _ => ["bad-op"]
   | ["feature", n, t] =>
     match bytes? n, bytes? t with
     | some n, some t => msgLines (.ok (featureUnsupportedFailure n t))
@@ -135,17 +154,17 @@ def envPtr (obs : List (List String)) : Bytes :=
     | _ => none).getD []
 
 /-- `leak <number> <filehex> <line> <allocnamehex> <ptrhex> <contenthex>` lines of a det report -/
-def envLeaks (obs : List (List String)) : List Leak :=
+def envLeaks (unknown : Bytes) (obs : List (List String)) : List Leak :=
   obs.filterMap fun l => match l with
     | ["leak", num, file, line, an, ptr, content] =>
-      match num.toNat?, bytes? file, line.toNat?, bytes? an, bytes? ptr, bytes? content with
+      match num.toNat?, fileWord? unknown file, line.toNat?, bytes? an, bytes? ptr, bytes? content with
       | some num, some file, some line, some an, some ptr, some content =>
         some { number := num, size := content.length, file := file, line := line, allocName := an, ptr := ptr, content := content }
       | _, _, _, _, _, _ => none
     | _ => none
 
 def misuseOf (kind af al asz an ff fl fn : String) : Option Misuse :=
-  match bytes? af, al.toNat?, asz.toNat?, bytes? an, bytes? ff, fl.toNat?, bytes? fn with
+  match fileWord? noLocation.1 af, al.toNat?, asz.toNat?, bytes? an, fileWord? noLocation.1 ff, fl.toNat?, bytes? fn with
   | some af, some al, some asz, some an, some ff, some fl, some fn =>
     let msg := if kind = "mismatch" then some Gen.Diag.msgMismatch else if kind = "corrupt" then some Gen.Diag.msgCorruption else none
     msg.map fun m => { message := m, allocFile := af, allocLine := al, allocSize := asz, allocName := an,
@@ -210,6 +229,7 @@ def modelDet (d : DState) (w : List String) (obs : List (List String)) : DState 
   | ["clearacct"], some o => (d, [stLine o.buf])
   | ["corrupt", _], some o => (d, [stLine o.buf])
   | ["alloc", _, _, _, _, _, _], some o => (d, [stLine o.buf])
+  | ["alloc0", _, _, _, _], some o => (d, [stLine o.buf])
   | ["start"], some o => let o' := o.clear; ({ d with det := some o' }, [stLine o'.buf])       -- startChecking
   | ["free", "ok", _, _, _, _, _, _, _], some o => (d, [stLine o.buf])
   | ["free", kind, af, al, asz, an, ff, fl, fn], some o =>
@@ -217,14 +237,14 @@ def modelDet (d : DState) (w : List String) (obs : List (List String)) : DState 
     | some m => let o' := o.reportFailure m; ({ d with det := some o' }, [failLine o'.buf, stLine o'.buf])
     | none => (d, ["bad-op"])
   | ["freebad", ff, fl, fn, un], some o =>
-    match bytes? ff, fl.toNat?, bytes? fn, bytes? un with
+    match fileWord? noLocation.1 ff, fl.toNat?, bytes? fn, bytes? un with
     | some ff, some fl, some fn, some un =>
       let o' := o.reportFailure (nonAllocatedMisuse un ff fl fn)
       ({ d with det := some o' }, [failLine o'.buf, stLine o'.buf])
     | _, _, _, _ => (d, ["bad-op"])
   | ["report", _], some o =>
     let leakLines := obs.filter (fun l => l.head? == some "leak")
-    let o' := o.report (envLeaks obs)
+    let o' := o.report (envLeaks noLocation.1 obs)
     ({ d with det := some o' },
      leakLines.map (" ".intercalate ·) ++ [s!"text {Proto.hex o'.buf.text}"] ++ parseReportLines o'.buf.text ++ [stLine o'.buf])
   | ["text"], some o => (d, [s!"text {Proto.hex o.buf.text}", stLine o.buf])
@@ -340,6 +360,15 @@ def specFailure (w : List String) (obs : List (List String)) : Except String Uni
   | ["feature", n, _] =>
     let some n := bytes? n | throw "bad-op"
     if !(Text.isInfix msg n) then throw "the message does not show the feature name"
+  | ["base"] => if msg.isEmpty then throw "empty message"
+  | ["basemsg", m] =>
+    let some m := bytes? m | throw "bad-op"
+    if msg != m then throw "TestFailure does not show the message"
+  | ["excunknown"] => if msg.isEmpty then throw "empty message"
+  | ["exc", _, what] =>
+    let some what := bytes? what | throw "bad-op"
+    let some tn := envTypeName obs | throw "no typename line"
+    if !(Text.isInfix msg tn && Text.isInfix msg what) then throw "the message does not show the exception's type and text"
   | ["doubles", _, _, _, _] =>
     let some (es, as, ts, _) := envDbl obs | throw "no dbl line"
     showsBoth msg es as
@@ -481,7 +510,7 @@ def specStep (sh : Shadow) (o : Proto.Op) : Except String Shadow := do
     | ["report", _] =>
       if sh.detClean then
         let some t := obsText o.obs | throw "no report text observed"
-        specCleanReport (envLeaks o.obs) t
+        specCleanReport (envLeaks (ofStr "<unknown>") o.obs) t
       return { sh with detClean := false }
     | _ => return { sh with detClean := sh.detClean && !hasFail o.obs }
   | _ => throw "bad-op"
